@@ -132,6 +132,10 @@ def run_property(pid, tier="quick", seed=0, relock=False, only=None, verbose=Tru
 
     # ---- 2. discharge
     t_full = 60000 if tier == "thorough" else 30000
+    for cx in res.cxs:
+        for o in cx.obls:
+            if o.kind != "canary" and match_known(known, pid, o.kind_id) is not None:
+                o.short = True
     smt.discharge(res.cxs, t_qf=8000, t_full=t_full)
     # an obligation kind that is locked (discharged on the unchanged tree) and comes back `unknown` gets a second chance
     # with other seeds and a longer budget before it is reported: slow queries are the unstable ones
